@@ -218,13 +218,13 @@ Proof.
   - intros (sr & Hin & Hs).
     destruct (is_precheck (lookup st (sr_ranges sr1))) eqn:EP.
     + assert (E : (a, sr) = (a1, sr1)).
-      { eapply shown_unique_claim; eauto. split; cbn [snd]; auto. rewrite S1. reflexivity. }
+      { apply (shown_unique_claim (claims self m) st _ _ s Hwf Hin H1 Hs). split; cbn [snd]; auto. }
       inversion E; auto.
     + assert (E : (a, sr) = (a2, sr2)).
-      { eapply shown_unique_claim; eauto. split; cbn [snd]; auto. }
+      { apply (shown_unique_claim (claims self m) st _ _ s Hwf Hin H2 Hs). split; cbn [snd]; auto. }
       inversion E; auto.
   - intros ->. destruct (is_precheck (lookup st (sr_ranges sr1))) eqn:EP.
-    + exists sr1. split; auto. split; cbn [snd]; auto. rewrite S1. reflexivity.
+    + exists sr1. split; auto. split; cbn [snd]; auto.
     + exists sr2. split; auto. split; cbn [snd]; auto.
 Qed.
 
@@ -326,4 +326,22 @@ Proof.
   - destruct (ranges_eqb k rl) eqn:E; cbn [lookup].
     + rewrite (Hk k E). reflexivity.
     + destruct (ranges_eqb k rl'); auto.
+Qed.
+
+(* a bystander (no task, hence no state for the range list) and every proxy whose task has left PreCheck see the
+   migrating slots at the destination; a proxy whose task is still in PreCheck sees them at the source *)
+Lemma migrating_cases : forall self m st v a1 sr1 a2 sr2 s, wf_view (claims self m) ->
+  In (a1, sr1) (claims self m) -> sr_tag sr1 = TMigrating ->
+  In (a2, sr2) (claims self m) -> sr_tag sr2 = TImporting ->
+  sr_ranges sr1 = sr_ranges sr2 -> in_ranges (sr_ranges sr1) s ->
+  (lookup st (sr_ranges sr1) = Some PreCheck -> forall a, adv_nodes (gen_cluster_nodes self m st v) a s <-> a = a1) /\
+  (lookup st (sr_ranges sr1) <> Some PreCheck -> forall a, adv_nodes (gen_cluster_nodes self m st v) a s <-> a = a2) /\
+  (lookup st (sr_ranges sr1) = None -> forall a, adv_nodes (gen_cluster_nodes self m st v) a s <-> a = a2).
+Proof.
+  intros self m st v a1 sr1 a2 sr2 s Hwf H1 T1 H2 T2 Hr Hc.
+  pose proof (migrating_adv self m st v a1 sr1 a2 sr2 s Hwf H1 T1 H2 T2 Hr Hc) as H.
+  split; [|split].
+  - intros E a. rewrite H, E. reflexivity.
+  - intros E a. rewrite H. destruct (lookup st (sr_ranges sr1)) as [[]|]; try reflexivity. congruence.
+  - intros E a. rewrite H, E. reflexivity.
 Qed.
